@@ -1024,6 +1024,40 @@ func c13Run(c core.Case, env *core.Env) core.Result {
 				}
 			}
 		}
+		// the genuine message first, then the same proof with an altered ciphertext (the sibling call of the other MtA
+		// variant, a re-delivery, a retry): what was accepted once must not vouch for another ciphertext
+		{
+			cA, pf, err := mta.AliceInit(ec, pkA, a, B.NTildei, B.H1i, B.H2i, rand.Reader)
+			if err == nil {
+				Bp := crypto.ScalarBaseMult(ec, b)
+				if _, _, _, _, e1 := mta.BobMid(sess, ec, pkA, pf, b, cA, A.NTildei, A.H1i, A.H2i, B.NTildei, B.H1i, B.H2i, rand.Reader); e1 != nil {
+					r.Fail("mta-honest-error", "BobMid refuses the genuine message: %v", e1)
+				}
+				if _, _, _, _, e1 := mta.BobMidWC(sess, ec, pkA, pf, b, cA, A.NTildei, A.H1i, A.H2i, B.NTildei, B.H1i, B.H2i, Bp, rand.Reader); e1 != nil {
+					r.Fail("mta-honest-error", "BobMidWC refuses the genuine message after BobMid has seen it: %v", e1)
+				}
+				for what, f := range alts {
+					bad := f(cA)
+					if bad.Cmp(cA) == 0 {
+						continue
+					}
+					var e1, e2 error
+					if p, msg, _ := guard(func() {
+						_, _, _, _, e1 = mta.BobMid(sess, ec, pkA, pf, b, bad, A.NTildei, A.H1i, A.H2i, B.NTildei, B.H1i, B.H2i, rand.Reader)
+						_, _, _, _, e2 = mta.BobMidWC(sess, ec, pkA, pf, b, bad, A.NTildei, A.H1i, A.H2i, B.NTildei, B.H1i, B.H2i, Bp, rand.Reader)
+					}); p {
+						r.Fail("mta-alter-panic:cA", "panic when an altered cA (%s) followed the genuine message with the same proof: %s", what, msg)
+						continue
+					}
+					if e1 == nil || e2 == nil {
+						r.Fail("mta-alter-accepted-after-genuine:cA:"+what, "after the genuine (cA, proof) had been accepted, the same proof with an altered cA (%s) was accepted too", what)
+					} else {
+						r.Count("alterations_refused", 2)
+						r.Count("alterations_after_genuine_refused", 2)
+					}
+				}
+			}
+		}
 		r.NonTrivial = r.Obs["alterations_refused"] > 0
 		r.Sample = map[string]any{"case": c.ID, "alterations_refused": r.Obs["alterations_refused"]}
 	}
